@@ -1062,3 +1062,106 @@ def run(ctx):
         if ctx.failures:
             return
     _run_before_addr(ctx)
+
+
+# ----------------------------------------------------------------------------- appended by strengthener st-nfif (round 10)
+# Class "every legal NON-CANONICAL encoding of the same value": the spec encoder (like every value-driven encoder) writes each
+# VarUInteger / Grams with the minimal `len`; block.tlb allows every len < n with value < 2^(8 len).  The spec-encoded cells are
+# rewritten (harness/gen/noncanon.py: every VarUInteger the spec trace locates - top cell, referenced cells, dictionary leaves and
+# fork extras - gets a len in minimal..n-1), the SPEC DECODER (tlbtrace) must read the rewritten cells as the SAME value with the
+# same trailer (it does, for every len: Codec.varUInt.dec), and the library parser must return every field with that value and
+# leave exactly the trailer.
+from ..gen import noncanon as NC
+
+
+def noncanon_stream(ctx, P, types, per_type, variants_per_value=3):
+    rng = ctx.rng
+    reqs = [(ty, rng.randrange(1 << 30)) for ty in types for _ in range(per_type * min(WEIGHT.get(ty, 1), 2))]
+    outs = ctx.model.run([f'tlbgent {ty} {seed}' for ty, seed in reqs])
+    jobs, lines = [], []
+    novar = set(types)
+    for (ty, seed), ans in zip(reqs, outs):
+        if ans == 'bad-op':
+            continue
+        g = V.parse_gent_answer(ans)
+        if g is None or g.get('trace') is None:
+            continue
+        strace = TR.parse_spec_trace(g['trace'])
+        for plan, nodes2, changes in NC.variants(rng, g['nodes'], strace, variants_per_value):
+            novar.discard(ty)
+            jobs.append((ty, seed, plan, g, nodes2, changes))
+            lines.append(f'tlbtrace {ty} {dag_str(nodes2)} {len(nodes2) - 1}')
+    for (ty, seed, plan, g, nodes2, changes), ans in zip(jobs, ctx.model.run(lines) if lines else []):
+        d = V.parse_trace_answer(ans)
+        if d is None or d['value'] != g['value'] or d['rbits'] != g['tbits'] or d['rrefs'] != g['trefs']:
+            # the spec decoder does not read the rewritten cells as the same value: not a legal re-encoding (n of this VarUInteger
+            # is not in noncanon.VAR_K); nothing is claimed about it
+            ctx.count('noncanon-not-same-value-per-spec')
+            ctx.case((ty, seed, plan, 'noncanon-rejected'), nontrivial=False)
+            continue
+        ctx.case((ty, seed, plan, 'noncanon'), sample={'type': ty, 'seed': seed, 'noncanonical': plan, 'rewritten': len(changes)})
+        ctx.count('noncanon-encodings')
+        ctx.count('noncanon:' + ty)
+        ctx.count('noncanon-varuints-rewritten', len(changes))
+        for _, _, ln, nl in changes:
+            ctx.count('noncanon-extra-bytes:%s' % (nl - ln if nl - ln < 4 else '4+'))
+        g2 = dict(value=g['value'], nodes=nodes2, tbits=g['tbits'], trefs=g['trefs'], rt=True, trace=None)
+        f, _, _ = evaluate(P, ty, g2)
+        if f is None:
+            continue
+        if f[0] == 'build':
+            ctx.corr_broken(f'library could not build the cells of a non-canonical {ty} encoding (seed {seed})')
+            continue
+        inp = {'type': ty, 'seed': seed, 'value': g['value'], 'dag': dag_str(nodes2), 'trailer_bits': g['tbits'], 'trailer_refs': g['trefs'],
+               'noncanonical': {'plan': plan, 'varuints': [{'field': p_, 'minimal_len': a, 'len': b} for _, p_, a, b in changes[:12]]}}
+        ctx.fail(f[0], f[1] + ' (VarUInteger written with a non-minimal len, legal per var_uint$_ len:(#< n) value:(uint (len * 8)))', inp, f[2], f[3])
+    ctx.stats['noncanon-types-without-varuint'] = len(novar)
+
+
+_run_before_noncanon = run
+_replay_before_noncanon = replay
+
+
+def run(ctx):
+    P = parsers()
+    late = ['TransactionDescr', 'Transaction', 'MsgEnvelope', 'InMsg', 'OutMsg', 'AccountBlock', 'InMsgDescr', 'OutMsgDescr', 'ShardAccountBlocks',
+            'McBlockExtra', 'McStateExtra', 'BlockExtra', 'Block', 'ShardStateUnsplit', 'ShardState']
+    order = sorted(t for t in P if t not in late) + late
+    if ctx.search:
+        state = ctx.rng.getstate()      # the search streams that follow keep their own draws
+        noncanon_stream(ctx, P, order, 10)
+        ctx.rng.setstate(state)
+        if ctx.failures:
+            return
+        _run_before_noncanon(ctx)
+        return
+    _run_before_noncanon(ctx)
+    noncanon_stream(ctx, P, order, 6)
+
+
+def replay(ctx, payload):
+    inp = unjson(payload.get('input') or {})
+    if isinstance(inp, dict) and inp.get('noncanonical') and 'dag' in inp:
+        nodes = V.parse_dag(inp['dag'])
+        ty = inp['type']
+        ctx.case((ty, inp.get('seed'), 'replay-noncanon'))
+        d = V.parse_trace_answer(ctx.model.run([f"tlbtrace {ty} {inp['dag']} {len(nodes) - 1}"])[0])
+        if d is None or d['value'] != inp['value'] or d['rbits'] != inp.get('trailer_bits', '') or d['rrefs'] != inp.get('trailer_refs', 0):
+            ctx.corr_broken(f'spec decoder no longer reads the recorded non-canonical {ty} encoding as the recorded value')
+            return
+        g = dict(value=inp['value'], nodes=nodes, tbits=inp.get('trailer_bits', ''), trefs=inp.get('trailer_refs', 0), rt=True, trace=None)
+        f, _, _ = evaluate(parsers(), ty, g)
+        if f is not None and f[0] != 'build':
+            ctx.fail(f[0], f[1], inp, f[2], f[3])
+        return
+    _replay_before_noncanon(ctx, payload)
+
+# the spec decoder on every legal (also non-minimal) VarUInteger / Grams encoding: Properties/C16NonCanon.lean
+SPEC['property_modules'] = list(SPEC.get('property_modules', [])) + ['C16NonCanon']
+SPEC['manifest']['text'] += (' NON-CANONICAL VarUInteger / Grams: the spec encoder writes the minimal len; Properties/C16NonCanon.lean proves that the spec decoder '
+                             'reads EVERY legal len (len < n, value < 2^(8 len)) as the value and consumes exactly len field + len bytes (c16_var_uint_any_len, '
+                             'c16_grams_any_len; len >= n refused: c16_var_uint_len_bound). Every run rewrites the VarUIntegers the spec trace locates in generated '
+                             'values of every type (top cell, referenced structures, dictionary leaves and fork extras) with len in minimal..n-1, lets the spec '
+                             'decoder confirm the same value and trailer, and compares the library parser field by field and on the remaining bits/refs (sampled).')
+SPEC['rule'] += ('; non-canonical encodings: 6 values per type x <= 3 rewrites (all VarUIntegers +1 byte / all maximal / one site / random slack), '
+                 'confirmed by the spec decoder')
